@@ -1,104 +1,181 @@
-"""C17 hunt on the unmodified tree: inputs on which the library already violates
+"""C17 hunt, round 3 (run on the UNMODIFIED tree).
 
-    "parse_version_specifier returns a specifier for every specifier set that packaging's
-     SpecifierSet accepts ... for every other string it raises InvalidSpecifier and nothing
-     else.  from_specifierset never raises on a SpecifierSet object."
+Prints the candidate deviations found by reading the code paths, each with the concrete
+input, what the library does and what the oracle (packaging) says, then re-runs a
+grammar fuzzer as evidence for the areas that turned out clean.
 
-Oracle: packaging.specifiers.SpecifierSet(text) accepting / rejecting the text.
-Run: cd /tmp/wt/C17h && PYTHONPATH=/tmp/wt/C17h/src /venv/bin/python hunt_C17.py
+Neither candidate is a clear-cut violation of the property as worded; both are
+borderline (see the notes printed with them).
 """
 
-from packaging.specifiers import InvalidSpecifier as PkgInvalidSpecifier
-from packaging.specifiers import SpecifierSet
+import random
+import sys
+
+from packaging.specifiers import InvalidSpecifier as PkgInvalid
+from packaging.specifiers import Specifier, SpecifierSet
 
 from dep_logic.specifiers import (
+    BaseSpecifier,
     InvalidSpecifier,
     from_specifierset,
     parse_version_specifier,
 )
 
 
-def short(text: str) -> str:
-    return text if len(text) <= 40 else f"{text[:16]}...({len(text)} chars)...{text[-8:]}"
-
-
-def outcome(fn, arg):
+def outcome(f):
     try:
-        return "returned " + type(fn(arg)).__name__
+        return f"returns {f()!r}"
+    except BaseException as e:  # noqa: BLE001
+        return f"raises {type(e).__name__}: {e}"
+
+
+print("== candidate 1 (borderline): SpecifierSet built from an iterable of strings")
+ss = SpecifierSet([">=1.0", "<2"])  # packaging: 'setuptools passes lists of strings'
+print("  input    : from_specifierset(SpecifierSet(['>=1.0', '<2']))")
+print("  oracle   : packaging builds the object and renders it:", outcome(lambda: str(ss)),
+      "- but ss.contains('1.5')", outcome(lambda: ss.contains("1.5")))
+print("  library  :", outcome(lambda: from_specifierset(ss)))
+print("  expected : 'from_specifierset never raises on a SpecifierSet object' (the same set built from")
+print("             Specifier objects works:", outcome(lambda: from_specifierset(SpecifierSet([Specifier('>=1.0'), Specifier('<2')]))), ")")
+print("  note     : packaging annotates the argument Iterable[Specifier]; with strings packaging's own contains()")
+print("             fails the same way, so the object is not a usable SpecifierSet -> NOT counted as a violation")
+
+print("== candidate 2 (borderline): `<empty>` alternative written with blanks around `||`")
+for text in (">=1.0 || <empty>", "<empty> || >=1.0", " <empty>"):
+    print(f"  input    : parse_version_specifier({text!r})")
+    print("  library  :", outcome(lambda: parse_version_specifier(text)))
+print("  compare  :", outcome(lambda: parse_version_specifier(">=1.0 || <2 ")), "for '>=1.0 || <2 ' (blanks fine around ordinary alternatives)")
+print("  note     : every other alternative may carry blanks (SpecifierSet strips them); only the literal")
+print("             `<empty>` must be exact. The property names `<empty>` as a string, so this is by the letter.")
+
+# ---------------------------------------------------------------------------------------
+# evidence for the clean areas: grammar fuzzer (valid sets + near-miss mutations)
+rnd = random.Random(2024)
+N = int(sys.argv[1]) if len(sys.argv) > 1 else 60000
+
+
+def num():
+    r = rnd.random()
+    if r < 0.5:
+        return str(rnd.randint(0, 3))
+    if r < 0.8:
+        return str(rnd.randint(0, 30))
+    if r < 0.9:
+        return "0" * rnd.randint(1, 2) + str(rnd.randint(0, 9))
+    return str(rnd.choice([99, 100, 2**31, 2**64, 10**20]))
+
+
+def release(minseg=1):
+    return ".".join(num() for _ in range(rnd.randint(minseg, rnd.choice([2, 3, 3, 4, 6]))))
+
+
+def sep():
+    return rnd.choice(["", "", ".", "-", "_"])
+
+
+def case(s):
+    return "".join(c.upper() if rnd.random() < 0.15 else c for c in s)
+
+
+def suffixes():
+    out = ""
+    if rnd.random() < 0.3:
+        out += sep() + case(rnd.choice(["a", "b", "c", "rc", "alpha", "beta", "pre", "preview"])) + sep() + rnd.choice(["", num()])
+    if rnd.random() < 0.3:
+        if rnd.random() < 0.2:
+            out += "-" + num()
+        else:
+            out += sep() + case(rnd.choice(["post", "rev", "r"])) + sep() + rnd.choice(["", num()])
+    if rnd.random() < 0.3:
+        out += sep() + case("dev") + sep() + rnd.choice(["", num()])
+    return out
+
+
+def ws():
+    return rnd.choice(["", "", "", " ", "  ", "\t", " ", "\x1c"])
+
+
+def atom():
+    op = rnd.choice(["==", "!=", "<", "<=", ">", ">=", "~=", "==", "!="])
+    epoch = rnd.choice(["", "", "", "0!", "1!", "2!", "10!"])
+    v = rnd.choice(["", "", "", "v", "V"])
+    if op in ("==", "!=") and rnd.random() < 0.4:
+        body = release() + ".*"
+    elif op == "~=":
+        body = release(2) + suffixes()
+    else:
+        body = release() + suffixes()
+    return ws() + op + ws() + v + epoch + body + ws()
+
+
+def specset():
+    parts = [atom() for _ in range(rnd.choice([0, 1, 1, 1, 2, 2, 3, 4]))]
+    if rnd.random() < 0.1:
+        parts.insert(rnd.randint(0, len(parts)), ws())
+    return ",".join(parts)
+
+
+def full():
+    n = rnd.choice([1, 1, 1, 2, 2, 3, 4])
+    return "||".join(("<empty>" if rnd.random() < 0.08 else specset()) for _ in range(n))
+
+
+JUNK = list("<>=!~.*,| -_+v!0123456789abdeprstcov()[];\n\t") + ["||", "<empty>", ".*", "dev", "post", "rc", "==", "~=", "ſ", "ı", "١"]
+
+
+def mutate(s):
+    for _ in range(rnd.randint(1, 3)):
+        if not s:
+            s = rnd.choice(JUNK)
+            continue
+        r = rnd.random()
+        i = rnd.randrange(len(s) + 1)
+        if r < 0.35:
+            s = s[:i] + rnd.choice(JUNK) + s[i:]
+        elif r < 0.7:
+            s = s[:i] + s[i + 1 :]
+        elif r < 0.85:
+            j = rnd.randrange(len(s) + 1)
+            i, j = min(i, j), max(i, j)
+            s = s[:i] + s[j:]
+        else:
+            s = s[:i] + rnd.choice(JUNK) + s[i + 1 :]
+    return s
+
+
+def oracle(s):
+    if s == "<empty>":
+        return True
+    for alt in s.split("||"):
+        if alt == "<empty>":
+            continue
+        try:
+            SpecifierSet(alt)
+        except PkgInvalid:
+            return False
+    return True
+
+
+bad = nvalid = ran = 0
+for _ in range(N):
+    s = full()
+    if rnd.random() < 0.5:
+        s = mutate(s)
+    if "===" in s or "+" in s:  # known families 4 and 5
+        continue
+    ran += 1
+    want = oracle(s)
+    nvalid += want
+    try:
+        r = parse_version_specifier(s)
     except InvalidSpecifier as e:
-        return "InvalidSpecifier"
-    except Exception as e:  # noqa: BLE001
-        return f"{type(e).__name__} (not InvalidSpecifier): {str(e)[:60]}"
-
-
-found = 0
-
-# ---------------------------------------------------------------------------------------
-# NEW 1: release / epoch numbers longer than CPython's int<->str digit limit (4300).
-#   The PEP 440 grammar puts no bound on the number of digits, and SpecifierSet accepts
-#   the text.  The library converts eagerly (Version(...), and str(n + 1) for the
-#   exclusive bound of `==X.*` / `~=`), so a bare ValueError escapes from both entry
-#   points - neither a specifier nor InvalidSpecifier.
-#   (a) 5000 digits: int() fails inside packaging.version.Version
-#   (b) exactly 4300 nines: Version() succeeds, but the *next* series has 4301 digits and
-#       _release_version's str() fails - only the wildcard / compatible forms raise,
-#       `>=` with the same operand is fine.
-# ---------------------------------------------------------------------------------------
-nines = "9" * 4300
-cases = [
-    ">=1." + "9" * 5000,
-    "==1." + "9" * 5000,
-    "!=" + "9" * 5000 + "!1.0",
-    "==1." + nines + ".*",
-    "!=1." + nines + ".*",
-    "~=1." + nines + ".0",
-    ">=1." + nines,  # control: accepted
-]
-print("== integer segments beyond the 4300-digit int/str conversion limit")
-for text in cases:
-    try:
-        pkg = SpecifierSet(text)
-        oracle = "accepts"
-    except PkgInvalidSpecifier:
-        pkg = None
-        oracle = "rejects"
-    got = outcome(parse_version_specifier, text)
-    got_set = outcome(from_specifierset, pkg) if pkg is not None else "-"
-    expected = "a specifier" if pkg is not None else "InvalidSpecifier"
-    bad = (pkg is not None) != got.startswith("returned") or "not InvalidSpecifier" in got
-    found += bad
-    print(
-        f"{'VIOLATION' if bad else 'ok       '} {short(text)!r}\n"
-        f"      packaging SpecifierSet: {oracle}; expected from library: {expected}\n"
-        f"      parse_version_specifier: {got}\n"
-        f"      from_specifierset:       {got_set}"
-    )
-
-# ---------------------------------------------------------------------------------------
-# Not new (same mechanism as the `~=1.0.poſt1` carve-out documented in from_specifierset):
-# the `~=` branch of packaging's regex is the only one without the (?a:) flag, so under
-# IGNORECASE U+0131 / U+0130 match the "i" of "preview".  SpecifierSet accepts, the library
-# answers InvalidSpecifier.  Printed for completeness only, not counted.
-# ---------------------------------------------------------------------------------------
-print("== (known carve-out, other letters) non-ASCII case folding in the ~= operand")
-for text in ["~=1.0prevıew1", "~=1.0.prevİew1"]:
-    try:
-        SpecifierSet(text)
-        oracle = "accepts"
-    except PkgInvalidSpecifier:
-        oracle = "rejects"
-    print(f"          {text!r}: packaging {oracle}; library: {outcome(parse_version_specifier, text)}")
-
-print()
-print(f"new violations: {found}")
-print(
-    "areas covered without further findings: ~110k random cases / ~37M membership checks\n"
-    "(valid sets of 1-4 clauses over all operators except ===, epochs, v prefix, 1-5 release\n"
-    "segments, wildcards of every depth, ~= with suffixes, every alternative pre/post/dev\n"
-    "spelling and separator, odd whitespace; single-character mutations of those for the\n"
-    "near-miss side; 2-3 way `||` alternatives; render -> re-parse of every result), compared\n"
-    "with packaging for acceptance, exception type and membership; plus ~120 hand-written\n"
-    "edge strings (empty clauses, unicode blanks/digits, NUL, lone surrogate, `<empty>`\n"
-    "placement, stray `|`), 1500-clause and 3000-alternative inputs, and SpecifierSet objects\n"
-    "built from Specifier iterables / with prereleases= / via `&`."
-)
+        ok = type(e) is InvalidSpecifier and (not want or not s.isascii())  # non-ASCII ~= operand: documented
+        msg = f"InvalidSpecifier {e}"
+    except BaseException as e:  # noqa: BLE001
+        ok, msg = False, f"{type(e).__name__} {e}"
+    else:
+        ok, msg = want and isinstance(r, BaseSpecifier), f"returned {r!r}"
+    if not ok:
+        bad += 1
+        print(f"  FUZZ VIOLATION {s!r}: packaging says {'valid' if want else 'invalid'}, library: {msg}")
+print(f"== fuzzer: {ran} strings ({nvalid} valid per packaging), {bad} violations")
